@@ -465,12 +465,49 @@ def _one(x):
     return x if type(x) is str else SymStr([x])
 
 
+_singles = {}
+
+
+def _single(code):
+    r = _singles.get(code)
+    if r is None:
+        r = _singles[code] = frozenset((code,))
+    return r
+
+
+_kin_cache = {}
+
+
+def k_in_str(var, chars):
+    """k_in(var, codes of chars) with a cache per (variable, character string)"""
+    key = (var, chars)
+    r = _kin_cache.get(key)
+    if r is None:
+        r = _kin_cache[key] = (k_in(var, map(ord, chars)),)
+    return r[0]
+
+
 class SymStr:
     """string of concrete length; items: 1-char str | Var"""
-    __slots__ = ("it",)
+    __slots__ = ("it", "_txt", "_cum")
 
     def __init__(self, items):
         self.it = list(items)
+        self._txt = None
+
+    def _accel(self):
+        """for long strings: concrete text with NUL placeholders + cumulative count of symbolic items,
+        so that a slice inside a concrete stretch is a plain str slice"""
+        txt, cum, n = [], [0], 0
+        for x in self.it:
+            if type(x) is str:
+                txt.append(x)
+            else:
+                txt.append("\0")
+                n += 1
+            cum.append(n)
+        self._txt = "".join(txt)
+        self._cum = cum
 
     @staticmethod
     def mk(items):
@@ -482,7 +519,7 @@ class SymStr:
 
     @staticmethod
     def items(x):
-        if type(x) is SymStr:
+        if isinstance(x, SymStr):
             return x.it
         if isinstance(x, str):
             return list(x)
@@ -499,7 +536,21 @@ class SymStr:
             yield _one(x)
 
     def __getitem__(s, k):
-        if isinstance(k, slice):
+        if type(k) is slice:
+            a, b = k.start, k.stop
+            if k.step is None and (a is None or type(a) is int) and (b is None or type(b) is int) and len(s.it) > 24:
+                if s._txt is None:
+                    s._accel()
+                n = len(s.it)
+                a = 0 if a is None else (max(0, n + a) if a < 0 else min(a, n))
+                b = n if b is None else (max(0, n + b) if b < 0 else min(b, n))
+                if b <= a:
+                    return ""
+                if s._cum[b] == s._cum[a]:
+                    return s._txt[a:b]
+                if b == n and b - a > 48 and type(s) is SymStr:
+                    return TailView(s, a)
+                return SymStr(s.it[a:b])
             if any(isinstance(b, SymInt) for b in (k.start, k.stop, k.step)):
                 k = slice(*[(b.concretize() if isinstance(b, SymInt) else b) for b in (k.start, k.stop, k.step)])
             return SymStr.mk(s.it[k])
@@ -532,9 +583,17 @@ class SymStr:
                 if a != b:
                     return False
             elif ta:
-                ks.append(k_in(b, (ord(a),)))
+                ca = ord(a)
+                if ca not in b.dom:
+                    return False
+                if len(b.dom) > 1:
+                    ks.append(("in", b, _single(ca)))
             elif tb:
-                ks.append(k_in(a, (ord(b),)))
+                cb = ord(b)
+                if cb not in a.dom:
+                    return False
+                if len(a.dom) > 1:
+                    ks.append(("in", a, _single(cb)))
             elif a is not b:
                 ks.append(("eqv", a, b) if id(a) < id(b) else ("eqv", b, a))
         return k_and(ks)
@@ -626,7 +685,7 @@ class SymStr:
         for x in s:
             if contains("abcdefghijklmnopqrstuvwxyz", x):
                 return False
-            if contains("ABCDEFGHIJKLMNOPQRSTUVWXYZ", x):
+            if not has_up and contains("ABCDEFGHIJKLMNOPQRSTUVWXYZ", x):
                 has_up = True
         return has_up
 
@@ -635,7 +694,7 @@ class SymStr:
         for x in s:
             if contains("ABCDEFGHIJKLMNOPQRSTUVWXYZ", x):
                 return False
-            if contains("abcdefghijklmnopqrstuvwxyz", x):
+            if not has and contains("abcdefghijklmnopqrstuvwxyz", x):
                 has = True
         return has
 
@@ -720,6 +779,27 @@ class SymStr:
     def concretize(s, m=None):
         m = m or RUN.model()
         return "".join(x if type(x) is str else chr(m.eval(x.z, model_completion=True).as_long()) for x in s.it)
+
+
+class TailView(SymStr):
+    """lazy view base[off:] of a long SymStr (the lexer hands source[pos:] to its regexes at every token;
+    copying the tail each time is quadratic).  The regex matcher reads base/off directly; any other
+    operation materialises the slice on first use of `.it`."""
+    __slots__ = ("base", "off", "_mat")
+
+    def __init__(self, base, off):
+        self.base, self.off, self._mat = base, off, None
+        self._txt = None
+
+    @property
+    def it(self):
+        m = self._mat
+        if m is None:
+            m = self._mat = self.base.it[self.off:]
+        return m
+
+    def __len__(s):
+        return len(s.base.it) - s.off
 
 
 _derived = {}
@@ -882,19 +962,18 @@ def is_sym(x):
 def contains(container, item):
     ti = type(item)
     tc = type(container)
+    if ti is TailView:
+        ti = SymStr
+    if tc is TailView:
+        tc = SymStr
     if ti is not SymStr and ti is not SymInt and ti is not Rope:
         if tc is str or tc is dict or tc is set or tc is frozenset:
             return item in container
-        if tc is SymStr:
-            return container.__contains__(item)
         if tc is list or tc is tuple:
-            sym = False
-            for x in container:
-                if type(x) in (SymStr, SymInt):
-                    sym = True
-                    break
-            if not sym:
+            if SymStr not in map(type, container) and SymInt not in map(type, container):
                 return item in container
+        elif tc is SymStr:
+            return container.__contains__(item)
     if ti is Rope or tc is Rope:
         raise EngineGap("membership on rope")
     if tc is str:
@@ -903,7 +982,8 @@ def contains(container, item):
             if n == 0:
                 return True
             if n == 1:
-                return _b(k_in(item.it[0], map(ord, container)))
+                x = item.it[0]
+                return (x in container) if type(x) is str else _b(k_in_str(x, container))
             return _b(k_or([item.eq_key(container[i:i + n]) for i in range(len(container) - n + 1)]))
         raise EngineGap(f"contains(str, {ti.__name__})")
     if tc is SymStr:
@@ -916,7 +996,7 @@ def contains(container, item):
         if ti is SymStr:
             return _b(k_or([item.eq_key(x) for x in container if isinstance(x, (str, SymStr))]))
         if ti is str:
-            return _b(k_or([(x.eq_key(item) if type(x) is SymStr else x == item) for x in container
+            return _b(k_or([(x.eq_key(item) if isinstance(x, SymStr) else x == item) for x in container
                             if isinstance(x, (str, SymStr))]))
         for x in container:
             if x == item:
@@ -927,6 +1007,10 @@ def contains(container, item):
 
 def getitem(obj, key):
     tk = type(key)
+    if tk is int or tk is str:
+        return obj[key]
+    if tk is TailView:
+        tk = SymStr
     if tk is SymStr and isinstance(obj, dict):
         for k, v in obj.items():
             if isinstance(k, str) and len(k) == len(key) and key == k:
@@ -938,6 +1022,8 @@ def getitem(obj, key):
 
 
 def join(sep, parts):
+    if type(parts) is str and type(sep) is str:
+        return sep.join(parts)
     parts = list(parts)
     if type(sep) is str and all(type(p) is str for p in parts):
         return sep.join(parts)
@@ -984,12 +1070,12 @@ def rt_print(*args, **kw):
 
 
 def rt_isinstance(obj, cls):
-    if cls is str and type(obj) is SymStr:
+    if cls is str and isinstance(obj, SymStr):
         return True
     if cls is int and type(obj) is SymInt:
         return True
     if isinstance(cls, tuple):
-        if str in cls and type(obj) is SymStr:
+        if str in cls and isinstance(obj, SymStr):
             return True
         if int in cls and type(obj) is SymInt:
             return True
@@ -999,3 +1085,27 @@ def rt_isinstance(obj, cls):
 def rt_floor(x):
     import math
     return math.floor(x)
+
+
+def rt_splitext(p):
+    """os.path.splitext (posix genericpath._splitext) on a possibly symbolic path"""
+    import os
+    if isinstance(p, str):
+        return os.path.splitext(p)
+    sep = p.rfind("/")
+    dot = p.rfind(".")
+    if dot > sep:
+        i = sep + 1
+        while i < dot:
+            if p[i] != ".":
+                return p[:dot], p[dot:]
+            i += 1
+    return p, ""
+
+
+def rt_basename(p):
+    import os
+    if isinstance(p, str):
+        return os.path.basename(p)
+    i = p.rfind("/") + 1
+    return p[i:]
